@@ -2,7 +2,82 @@
 
 package runtime
 
-// C02 — numbers.  See DESIGN.md §3 C02.
+import "math"
+
+// C02 — numbers.  See DESIGN.md §3 C02.  Every harness quantifies over all
+// 2^64 bit patterns of each operand (ints: all int64; floats: all binary64,
+// NaN, ±0, ±Inf included) unless a verifAssume says otherwise.
+
+const vhTwo63 = 9223372036854775808.0
+
+// vhSameNum: same Lua number (same subtype; floats bit-identical up to NaN).
+func vhSameNum(a, b Value) bool {
+	if a.NumberType() != b.NumberType() {
+		return false
+	}
+	switch a.NumberType() {
+	case IntType:
+		return a.AsInt() == b.AsInt()
+	case FloatType:
+		x, y := a.AsFloat(), b.AsFloat()
+		if x != x || y != y {
+			return x != x && y != y
+		}
+		return math.Float64bits(x) == math.Float64bits(y)
+	}
+	return false
+}
+
+// ---- spec: exact comparison of an int64 with a float64 (no rounding) ----
+
+// specLtIF: n < f mathematically.
+func specLtIF(n int64, f float64) bool {
+	if f != f {
+		return false
+	}
+	if f >= vhTwo63 {
+		return true
+	}
+	if f <= -vhTwo63 {
+		return false // n >= -2^63 >= f
+	}
+	fl := math.Floor(f) // -2^63 < fl < 2^63: converts exactly
+	i := int64(fl)
+	if fl == f {
+		return n < i
+	}
+	return n <= i
+}
+
+// specLtFI: f < n mathematically.
+func specLtFI(f float64, n int64) bool {
+	if f != f {
+		return false
+	}
+	if f >= vhTwo63 {
+		return false
+	}
+	if f < -vhTwo63 {
+		return true
+	}
+	c := math.Ceil(f) // -2^63 <= c <= 2^63 - 1024 or so: converts exactly
+	i := int64(c)
+	if c == f {
+		return i < n
+	}
+	return i <= n
+}
+
+// specEqIF: n == f mathematically.
+func specEqIF(n int64, f float64) bool {
+	if f != f || f >= vhTwo63 || f < -vhTwo63 {
+		return false
+	}
+	if math.Floor(f) != f {
+		return false
+	}
+	return int64(f) == n
+}
 
 // K2(ii): algebraic laws of mixed int/float comparison, no spec at all.
 func VerifH_C02_trichotomy_int_float() {
@@ -14,4 +89,338 @@ func VerifH_C02_trichotomy_int_float() {
 	eq, ok3 := RawEqual(x, y)
 	verifAssert(ok1 && ok2 && ok3, "comparable")
 	verifAssert(verifB2I(lt)+verifB2I(gt)+verifB2I(eq) == 1, "trichotomy")
+}
+
+// a<=b  <=>  a<b or a==b, for int/float and float/int; and le agrees with the exact spec.
+func VerifH_C02_le_is_lt_or_eq() {
+	n, f := nondetInt64("n"), nondetFloat64("f")
+	x, y := IntValue(n), FloatValue(f)
+	le1, err1 := le(nil, x, y)
+	lt1, _ := isLessThan(x, y)
+	eq1, _ := RawEqual(x, y)
+	verifAssert(err1 == nil, "le-int-float-no-error")
+	verifAssert(le1 == (lt1 || eq1), "le-int-float")
+	le2, err2 := le(nil, y, x)
+	lt2, _ := isLessThan(y, x)
+	verifAssert(err2 == nil, "le-float-int-no-error")
+	verifAssert(le2 == (lt2 || eq1), "le-float-int")
+	eq2, _ := RawEqual(y, x)
+	verifAssert(eq1 == eq2, "eq-symmetric")
+}
+
+// K2(i): exactness against the no-rounding spec.
+func VerifH_C02_lt_exact() {
+	n, f := nondetInt64("n"), nondetFloat64("f")
+	x, y := IntValue(n), FloatValue(f)
+	lt1, _ := isLessThan(x, y)
+	verifAssert(lt1 == specLtIF(n, f), "lt-int-float-exact")
+	lt2, _ := isLessThan(y, x)
+	verifAssert(lt2 == specLtFI(f, n), "lt-float-int-exact")
+	eq, _ := RawEqual(x, y)
+	verifAssert(eq == specEqIF(n, f), "eq-int-float-exact")
+	verifAssert(numIsLessThan(x, y) == lt1 && numIsLessThan(y, x) == lt2, "numIsLessThan-agrees")
+	le1, _ := le(nil, x, y)
+	verifAssert(le1 == (specLtIF(n, f) || specEqIF(n, f)), "le-int-float-exact")
+	le2, _ := le(nil, y, x)
+	verifAssert(le2 == (specLtFI(f, n) || specEqIF(n, f)), "le-float-int-exact")
+}
+
+func VerifH_C02_cmp_same_type() {
+	a, b := nondetInt64("a"), nondetInt64("b")
+	lt, ok := isLessThan(IntValue(a), IntValue(b))
+	verifAssert(ok && lt == (a < b), "lt-int-int")
+	leq, err := le(nil, IntValue(a), IntValue(b))
+	verifAssert(err == nil && leq == (a <= b), "le-int-int")
+	eq, ok2 := RawEqual(IntValue(a), IntValue(b))
+	verifAssert(eq == (a == b) && (ok2 || !eq), "eq-int-int")
+	f, g := nondetFloat64("f"), nondetFloat64("g")
+	lt2, ok3 := isLessThan(FloatValue(f), FloatValue(g))
+	verifAssert(ok3 && lt2 == (f < g), "lt-float-float")
+	le2, err2 := le(nil, FloatValue(f), FloatValue(g))
+	verifAssert(err2 == nil && le2 == (f <= g), "le-float-float")
+	eq2, _ := RawEqual(FloatValue(f), FloatValue(g))
+	verifAssert(eq2 == (f == g), "eq-float-float")
+	verifAssert(FloatValue(f).Equals(FloatValue(g)) == (f == g), "Equals-float")
+	verifAssert(IntValue(a).Equals(IntValue(b)) == (a == b), "Equals-int")
+	verifAssert(!IntValue(a).Equals(FloatValue(f)), "Equals-int-float-distinct-types")
+}
+
+// ---- K1 arithmetic ----
+
+func VerifH_C02_arith_int_int() {
+	a, b := nondetInt64("a"), nondetInt64("b")
+	x, y := IntValue(a), IntValue(b)
+	r, ok := Add(x, y)
+	verifAssert(ok && vhSameNum(r, IntValue(a+b)), "add")
+	r, ok = Sub(x, y)
+	verifAssert(ok && vhSameNum(r, IntValue(a-b)), "sub")
+	r, ok = Mul(x, y)
+	verifAssert(ok && vhSameNum(r, IntValue(a*b)), "mul")
+	r, ok = Div(x, y)
+	verifAssert(ok && vhSameNum(r, FloatValue(float64(a)/float64(b))), "div-is-float")
+	r, ok = Unm(x)
+	verifAssert(ok && vhSameNum(r, IntValue(-a)), "unm")
+	r, ok = Pow(x, y)
+	verifAssert(ok && r.NumberType() == FloatType, "pow-is-float")
+}
+
+// floor division and modulo of integers against the textbook reference:
+// truncated quotient/remainder, adjusted when the remainder is non-zero and
+// has the sign opposite to the divisor.
+func specFloorDivMod(a, b int64) (int64, int64) {
+	q, r := a/b, a%b
+	if r != 0 && (r^b) < 0 {
+		q, r = q-1, r+b
+	}
+	return q, r
+}
+
+func VerifH_C02_idiv_mod_int() {
+	a, b := nondetInt64("a"), nondetInt64("b")
+	x, y := IntValue(a), IntValue(b)
+	qv, ok, err := Idiv(x, y)
+	rv, ok2, err2 := Mod(x, y)
+	verifAssert(ok && ok2, "numbers")
+	if b == 0 {
+		verifReach("div-by-zero")
+		verifAssert(err != nil && err2 != nil, "zero-divisor-is-error")
+		return
+	}
+	verifAssert(err == nil && err2 == nil, "no-error")
+	verifAssert(qv.NumberType() == IntType && rv.NumberType() == IntType, "int-results")
+	q, r := qv.AsInt(), rv.AsInt()
+	sq, sr := specFloorDivMod(a, b)
+	verifAssert(q == sq, "floor-quotient")
+	verifAssert(r == sr, "floor-remainder")
+}
+
+// The same operations against the algebraic definition (q*b + r == a with
+// r in [0,b) or (b,0], computed without wrap-around in 128 bits), which does not trust
+// Go's '/' and '%'.  64x64-bit symbolic multiplication/division is out of
+// reach of the SMT back ends (DESIGN 2.10), so the divisor is case-split into
+// concrete values (one path each): every b with 1 <= |b| <= 16 in the quick
+// tier, plus ±(2^k), ±(2^k±1) for all k, ±10^k and the extremes in thorough.
+// The dividend is any int64.
+func vhDivisor() int64 {
+	n := 32
+	if verifTier() == 1 {
+		n = 32 + 2*(62*3+19+2)
+	}
+	i := verifChoose("divisor", n)
+	sign := int64(1)
+	if i%2 == 1 {
+		sign = -1
+	}
+	i /= 2
+	if i < 16 {
+		return sign * int64(i+1)
+	}
+	i -= 16
+	if i < 62*3 {
+		p := int64(1) << uint(i/3+1)
+		return sign * (p + int64(i%3) - 1)
+	}
+	i -= 62 * 3
+	if i < 19 {
+		p := int64(1)
+		for k := 0; k < i; k++ {
+			p *= 10
+		}
+		return sign * p
+	}
+	if i == 19 {
+		return math.MaxInt64 * sign
+	}
+	return math.MinInt64
+}
+
+func VerifH_C02_idiv_mod_int_algebraic() {
+	a := nondetInt64("a")
+	b := vhDivisor()
+	qv, _, _ := Idiv(IntValue(a), IntValue(b))
+	rv, _, _ := Mod(IntValue(a), IntValue(b))
+	q, r := qv.AsInt(), rv.AsInt()
+	if a == math.MinInt64 && b == -1 {
+		verifReach("minint-by-minus-one")
+		verifAssert(q == math.MinInt64 && r == 0, "minint//-1 wraps")
+		return
+	}
+	// a == q*b + r in the integers (128-bit arithmetic, no wrap-around)
+	verifAssert(verifMulAddEqInt64(q, b, r, a), "a == q*b + r in Z")
+	if b > 0 {
+		verifAssert(0 <= r && r < b, "0 <= r < b")
+	} else {
+		verifAssert(b < r && r <= 0, "b < r <= 0")
+	}
+}
+
+func VerifH_C02_arith_mixed() {
+	a, f := nondetInt64("a"), nondetFloat64("f")
+	x, y := IntValue(a), FloatValue(f)
+	fa := float64(a)
+	r, ok := Add(x, y)
+	verifAssert(ok && vhSameNum(r, FloatValue(fa+f)), "add-if")
+	r, ok = Add(y, x)
+	verifAssert(ok && vhSameNum(r, FloatValue(f+fa)), "add-fi")
+	r, ok = Sub(x, y)
+	verifAssert(ok && vhSameNum(r, FloatValue(fa-f)), "sub-if")
+	r, ok = Sub(y, x)
+	verifAssert(ok && vhSameNum(r, FloatValue(f-fa)), "sub-fi")
+	r, ok = Mul(x, y)
+	verifAssert(ok && vhSameNum(r, FloatValue(fa*f)), "mul-if")
+	r, ok = Div(x, y)
+	verifAssert(ok && vhSameNum(r, FloatValue(fa/f)), "div-if")
+	r, ok = Div(y, x)
+	verifAssert(ok && vhSameNum(r, FloatValue(f/fa)), "div-fi")
+	r, ok = Unm(y)
+	verifAssert(ok && vhSameNum(r, FloatValue(-f)), "unm-f")
+	var err error
+	r, ok, err = Idiv(x, y)
+	verifAssert(ok && err == nil && vhSameNum(r, FloatValue(math.Floor(fa/f))), "idiv-if")
+	r, ok, err = Idiv(y, x)
+	verifAssert(ok && err == nil && vhSameNum(r, FloatValue(math.Floor(f/fa))), "idiv-fi")
+}
+
+func VerifH_C02_arith_float_float() {
+	f, g := nondetFloat64("f"), nondetFloat64("g")
+	x, y := FloatValue(f), FloatValue(g)
+	r, ok := Add(x, y)
+	verifAssert(ok && vhSameNum(r, FloatValue(f+g)), "add")
+	r, ok = Sub(x, y)
+	verifAssert(ok && vhSameNum(r, FloatValue(f-g)), "sub")
+	r, ok = Mul(x, y)
+	verifAssert(ok && vhSameNum(r, FloatValue(f*g)), "mul")
+	r, ok = Div(x, y)
+	verifAssert(ok && vhSameNum(r, FloatValue(f/g)), "div")
+	r, ok, err := Idiv(x, y)
+	verifAssert(ok && err == nil && vhSameNum(r, FloatValue(math.Floor(f/g))), "idiv")
+}
+
+// float modulo: sign follows the divisor, |r| < |y|, r is fmod(x,y) or fmod(x,y)+y.
+func VerifH_C02_mod_float() {
+	f, g := nondetFloat64("f"), nondetFloat64("g")
+	verifAssume(f == f && g == g && !math.IsInf(f, 0) && !math.IsInf(g, 0) && g != 0)
+	rv, ok, err := Mod(FloatValue(f), FloatValue(g))
+	verifAssert(ok && err == nil && rv.NumberType() == FloatType, "float-result")
+	r := rv.AsFloat()
+	verifAssert(r == r, "not-nan")
+	// |r| <= |g|: r == g happens through rounding of fmod(x,y)+y for tiny
+	// fmod results (e.g. -4.9e-324 % 1.0000000000000002), exactly as in PUC
+	// Lua's luai_nummod; the manual's real-number definition gives |r| < |g|.
+	verifAssert(math.Abs(r) <= math.Abs(g), "abs(r) <= abs(g)")
+	verifAssert(r == 0 || (r < 0) == (g < 0), "sign-of-divisor")
+	m := math.Mod(f, g)
+	verifAssert(r == m || r == m+g, "fmod-or-fmod-plus-divisor")
+}
+
+func VerifH_C02_arith_non_numbers() {
+	a := nondetInt64("a")
+	x := IntValue(a)
+	var others [3]Value
+	others[0] = NilValue
+	others[1] = BoolValue(nondetBool("b"))
+	others[2] = StringValue("10")
+	k := verifChoose("kind", 3)
+	o := others[k]
+	_, ok := Add(x, o)
+	verifAssert(!ok, "add-non-number")
+	_, ok = Sub(o, x)
+	verifAssert(!ok, "sub-non-number")
+	_, ok = Mul(x, o)
+	verifAssert(!ok, "mul-non-number")
+	_, ok = Div(o, x)
+	verifAssert(!ok, "div-non-number")
+	_, ok, _ = Idiv(x, o)
+	verifAssert(!ok, "idiv-non-number")
+	_, ok, _ = Mod(o, x)
+	verifAssert(!ok, "mod-non-number")
+	_, ok = Pow(x, o)
+	verifAssert(!ok, "pow-non-number")
+	_, ok = Unm(o)
+	verifAssert(!ok, "unm-non-number")
+	_, ok = isLessThan(x, o)
+	verifAssert(!ok, "lt-non-number")
+}
+
+// ---- K3 conversions ----
+
+func specFloatIsInt(f float64) bool {
+	return f == f && f >= -vhTwo63 && f < vhTwo63 && math.Floor(f) == f
+}
+
+func VerifH_C02_float_to_int() {
+	f := nondetFloat64("f")
+	n, tp := FloatToInt(f)
+	isInt := specFloatIsInt(f)
+	verifAssert((tp == IsInt) == isInt, "converts-iff-exact-integer")
+	if isInt {
+		verifReach("integral")
+		verifAssert(float64(n) == f, "value-preserved")
+	} else {
+		verifReach("not-integral")
+	}
+	n2, ok2 := ToInt(FloatValue(f))
+	verifAssert(ok2 == isInt && (!ok2 || n2 == n), "ToInt")
+	n3, ok3 := ToIntNoString(FloatValue(f))
+	verifAssert(ok3 == isInt && (!ok3 || n3 == n), "ToIntNoString")
+	g, okf := ToFloat(FloatValue(f))
+	verifAssert(okf && (g == f || (g != g && f != f)), "ToFloat-float")
+	a := nondetInt64("a")
+	n4, ok4 := ToInt(IntValue(a))
+	verifAssert(ok4 && n4 == a, "ToInt-int")
+	g2, okf2 := ToFloat(IntValue(a))
+	verifAssert(okf2 && g2 == float64(a), "ToFloat-int")
+	v, nt := ToNumberValue(FloatValue(f))
+	verifAssert(nt == IsFloat && vhSameNum(v, FloatValue(f)), "ToNumberValue-float")
+	v, nt = ToNumberValue(IntValue(a))
+	verifAssert(nt == IsInt && vhSameNum(v, IntValue(a)), "ToNumberValue-int")
+}
+
+// ---- K4 bitwise ----
+
+func specShl(x, n int64) int64 {
+	if n <= -64 || n >= 64 {
+		return 0
+	}
+	if n >= 0 {
+		return int64(uint64(x) << uint(n))
+	}
+	return int64(uint64(x) >> uint(-n))
+}
+
+func VerifH_C02_bitwise_int() {
+	a, b := nondetInt64("a"), nondetInt64("b")
+	x, y := IntValue(a), IntValue(b)
+	r, err := band(nil, x, y)
+	verifAssert(err == nil && vhSameNum(r, IntValue(a&b)), "band")
+	r, err = bor(nil, x, y)
+	verifAssert(err == nil && vhSameNum(r, IntValue(a|b)), "bor")
+	r, err = bxor(nil, x, y)
+	verifAssert(err == nil && vhSameNum(r, IntValue(a^b)), "bxor")
+	r, err = bnot(nil, x)
+	verifAssert(err == nil && vhSameNum(r, IntValue(^a)), "bnot")
+	r, err = shl(nil, x, y)
+	verifAssert(err == nil && vhSameNum(r, IntValue(specShl(a, b))), "shl")
+	r, err = shr(nil, x, y)
+	if b == math.MinInt64 {
+		verifAssert(err == nil && vhSameNum(r, IntValue(0)), "shr-by-minint")
+	} else {
+		verifAssert(err == nil && vhSameNum(r, IntValue(specShl(a, -b))), "shr")
+	}
+}
+
+// floats with an exact integer value are accepted by bitwise operators and
+// converted exactly.
+func VerifH_C02_bitwise_float_operand() {
+	a, f := nondetInt64("a"), nondetFloat64("f")
+	verifAssume(specFloatIsInt(f))
+	fi := int64(f)
+	r, err := band(nil, IntValue(a), FloatValue(f))
+	verifAssert(err == nil && vhSameNum(r, IntValue(a&fi)), "band-float")
+	r, err = bxor(nil, FloatValue(f), IntValue(a))
+	verifAssert(err == nil && vhSameNum(r, IntValue(fi^a)), "bxor-float")
+	r, err = shl(nil, IntValue(a), FloatValue(f))
+	verifAssert(err == nil && vhSameNum(r, IntValue(specShl(a, fi))), "shl-float-count")
+	r, err = bnot(nil, FloatValue(f))
+	verifAssert(err == nil && vhSameNum(r, IntValue(^fi)), "bnot-float")
 }
